@@ -1,8 +1,12 @@
 import PxModel.DrvWs
+import PxModel.DrvParser
+import PxModel.DrvRelay
 import PxModel.DrvIdle
 import PxModel.DrvListen
 import PxModel.DrvDispatcher
 import PxModel.DrvStatic
+import PxModel.DrvChain
+import PxModel.DrvExec
 /-
   Line protocol driver: one operation per input line, one canonical result
   line per input line.  First token selects the model.
@@ -12,10 +16,15 @@ open Px
 def dispatch (line : String) : String :=
   match (line.splitOn " ").filter (· ≠ "") with
   | "ws" :: args => Ws.drv args
+  | "hp" :: args => Parser.drv args
   | "disp" :: args => Disp.drv args
   | "idle" :: args => Idle.drv args
   | "listen" :: args => Listen.drv args
   | "static" :: args => Static.drv args
+  | "relay" :: args => Relay.drv args
+  | "chain" :: args => Chain.drv args
+  | "sel" :: args => Exec.selDrv args
+  | "exec" :: args => Exec.execDrv args
   | _ => "bad-op"
 
 partial def loop (h : IO.FS.Stream) (out : IO.FS.Stream) : IO Unit := do
